@@ -935,10 +935,11 @@ func (st *hnState) ownHostSet(v ssa.Value, depth int) (string, bool) {
 }
 
 // scanIndexCanonical: inside the loop headed by ifi, every HostSet.Get(x) has x of one of the forms
-//   i                      (i from 0 to size)
-//   (i + s) % size, (s + i) % size
-//   i % size               (i from s to s+size)
-//   atomic.AddUint32(&ctr,1) % size   (a shared round-robin cursor advanced once per iteration)
+//
+//	i                      (i from 0 to size)
+//	(i + s) % size, (s + i) % size
+//	i % size               (i from s to s+size)
+//	atomic.AddUint32(&ctr,1) % size   (a shared round-robin cursor advanced once per iteration)
 func scanIndexCanonical(fn *ssa.Function, ifi *ssa.If, phi *ssa.Phi, bound ssa.Value, start ssa.Value) (bool, string) {
 	body := reachableFrom(ifi.Block().Succs[0])
 	var gets []*ssa.Call
